@@ -347,7 +347,7 @@ impl WmoParser {
         };
 
         momt_chunk.seek_to_data(reader)?;
-        let mut materials = Vec::with_capacity(n_materials as usize);
+        let mut materials = Vec::with_capacity((n_materials as usize).min(4096));
 
         const MATERIAL_SIZE: usize = 64;
 
@@ -431,7 +431,7 @@ impl WmoParser {
         };
 
         mogi_chunk.seek_to_data(reader)?;
-        let mut groups = Vec::with_capacity(n_groups as usize);
+        let mut groups = Vec::with_capacity((n_groups as usize).min(4096));
 
         for i in 0..n_groups {
             let flags = WmoGroupFlags::from_bits_truncate(reader.read_u32_le()?);
@@ -530,7 +530,7 @@ impl WmoParser {
         };
 
         mopt_chunk.seek_to_data(reader)?;
-        let mut portals = Vec::with_capacity(n_portals as usize);
+        let mut portals = Vec::with_capacity((n_portals as usize).min(4096));
 
         for _ in 0..n_portals {
             let vertex_index = reader.read_u16_le()? as usize;
@@ -676,7 +676,7 @@ impl WmoParser {
         };
 
         molt_chunk.seek_to_data(reader)?;
-        let mut lights = Vec::with_capacity(n_lights as usize);
+        let mut lights = Vec::with_capacity((n_lights as usize).min(4096));
 
         for _ in 0..n_lights {
             let light_type_raw = reader.read_u8()?;
@@ -859,7 +859,7 @@ impl WmoParser {
         };
 
         mods_chunk.seek_to_data(reader)?;
-        let mut sets = Vec::with_capacity(n_doodad_sets as usize);
+        let mut sets = Vec::with_capacity((n_doodad_sets as usize).min(4096));
 
         for _i in 0..n_doodad_sets {
             // Read 20 bytes for the set name (including null terminator)
